@@ -23,6 +23,7 @@ def colJParams (j : Json) : R Params := do
 
 def colOfErr : Err → String
   | .refScriptSize => "ref-script-size"
+  | .tooMany => "too-many"
   | .insufficient => "insufficient"
   | .returnBelowMin => "return-below-min"
 
